@@ -7,6 +7,7 @@ ENTRY = {
                    "five handler kinds, and for Route.Handle / Route.HandleMiddleware, the trace must equal the in-scope global ids in registration order, then the "
                    "route's own ids, each exactly once. All 32 scope masks are enumerated. Concurrently created routes (race detector on) must keep their own chain.",
         level_note="The concurrent part samples schedules; the race detector turns the shared-backing-array write into a report even when the trace happens to be right.",
+        level_more='Later additions: updates done as an upsert transaction (refused Handle, then Update), an alias route serving other routes through Route.Handle / Route.HandleMiddleware, an aliasing no-route middleware, unusual last segments on the redirect route, a spread middleware slice reused after New, handlers given before middleware options.',
         rule="cases: middleware configurations; non-trivial = >= 2 scoped global middleware and >= 1 route middleware (or an enumerated mask case, or a concurrent plan); distinct by configuration",
         assumptions=["middleware identity is observed through a per-request trace carried in the request context"],
         quick=[REPLAY,
